@@ -11,6 +11,7 @@ The theorems hold for the repaired flags; each `…_counterexample` refutes the 
 lacks the corresponding repair.
 -/
 import Pandora.Proofs.C05Eng
+import Pandora.Proofs.C05Sys
 import Pandora.Bridge.C05Engine
 
 namespace Pandora.Props.C05
@@ -452,11 +453,11 @@ theorem C05_source_run_terminates : C05_run_terminates_statement Bridge.C05Engin
 ends the process normally; any error cancels the run context, waits for the engine's tasks (`Engine.Wait`) and then
 exits through `log.Fatal` (status 1) — in that order -/
 theorem C05_cli_reports_outcome :
-    Gen.C05Engine.cliRunEngine.all (fun p => (p.after (.call "Run")).contains (.send "errs")) = true ∧
+    Gen.C05Engine.cliRunEngine.all (fun p => (p.after (.call "Run")).contains (.send "‹arg2›")) = true ∧
     Gen.C05Engine.cliEngineReturned.map (fun p => (p.head?, p.filter (fun e => match e with | .call _ => true | _ => false))) =
-      [(some (.swc "err=nil"), []),
-       (some (.swc "err=err"), [.call "gracefulShutdown", .call "Wait", .call "Fatal"]),
-       (some (.swc "err=<none>"), [])] :=
+      [(some (.swc "‹rx:arg2@2›=nil"), []),
+       (some (.swc "‹rx:arg2@2›=‹rx:arg2@2›"), [.call "‹arg1›", .call "Wait", .call "Fatal"]),
+       (some (.swc "‹rx:arg2@2›=<none>"), [])] :=
   ⟨Bridge.C05Engine.cli_forwards, Bridge.C05Engine.cli_outcomes⟩
 
 /-- `errutil.IsCtxError` as regenerated from the source: nil, or the error's cause is the `Err()` of THIS context —
@@ -471,6 +472,101 @@ its run context (whose error is `context.Canceled`) -/
 example : Gen.C05Engine.isCtxError (some .canceled) (some (.ctxKind .deadlineExceeded)) = false := by decide
 example : absRet (some .canceled) (some (.ctxKind .deadlineExceeded)) = .err 1001 := by decide
 example : absRet (some .canceled) (some (.ctxKind .canceled)) = .ctx := by decide
+
+/-! ### the goroutines of `Engine.Run` (`Model.C05.Sys`): results in flight, the 1-slot channel, leaving through the
+engine context — for ALL interleavings of any number of pools, whatever each `Pool.Run` returns and whenever -/
+
+section Sys
+open Pandora.Model.C05.Sys
+
+/-- `Engine.Run` returns nil only if EVERY pool goroutine has delivered a nil result of its `Pool.Run` and has ended:
+no pool is still running, none holds an undelivered result, none was suppressed -/
+theorem C05_engine_sys_success_all_pools (cfg : EngCfg) (n : Nat) (cs : List EChoice) :
+    (erun cfg n cs).result = some ERes.ok → ∀ p ∈ (erun cfg n cs).pools, p = PoolG.taken PRes.ok :=
+  Proofs.C05.Sys.ok_all cfg n cs
+
+/-- the cancellation error only after the caller's cancel; a pool failure is the real, non-nil result of that pool's
+`Run`, and is reported only when the caller had not cancelled -/
+theorem C05_engine_sys_outcome (cfg : EngCfg) (n : Nat) (cs : List EChoice) :
+    ((erun cfg n cs).result = some ERes.ctx → (erun cfg n cs).extAtReturn = true ∧ (erun cfg n cs).extC = true) ∧
+    (∀ i r, (erun cfg n cs).result = some (ERes.fail i r) →
+      (erun cfg n cs).pools[i]? = some (PoolG.taken r) ∧ r ≠ PRes.ok ∧ (erun cfg n cs).extAtReturn = false) := by
+  have hi := Proofs.C05.Sys.run_inv cfg n cs
+  exact ⟨fun h => ⟨hi.retCtx h, hi.extMono (hi.retCtx h)⟩, hi.retFail⟩
+
+/-- no pool goroutine is left behind: once `Engine.Run` has returned (its deferred `cancel()`), a goroutine whose
+`Pool.Run` returns — now or later — can always leave through the engine context, whatever sits in the channel -/
+def C05_engine_goroutines_exit_statement (cfg : EngCfg) : Prop :=
+  ∀ (n : Nat) (cs : List EChoice) (i : Nat) (r : PRes),
+    (erun cfg n cs).result.isSome = true → (erun cfg n cs).pools[i]? = some (PoolG.done r) →
+      (estep cfg (erun cfg n cs) (.suppress i)).pools[i]? = some (PoolG.suppressed r)
+
+theorem C05_engine_goroutines_exit (cfg : EngCfg) (h : cfg.sendSelects = true) : C05_engine_goroutines_exit_statement cfg :=
+  fun n cs i r hres hp => Proofs.C05.Sys.suppress_enabled cfg h n cs i r hres hp
+
+/-- three pools, the first fails and is consumed, the second's result fills the channel: the third goroutine -/
+def leakWitness : List EChoice :=
+  [.poolRet 0 (.fail .provider (.err 1)), .send 0, .recv, .poolRet 1 .ok, .send 1, .poolRet 2 .ok]
+
+/-- a pool goroutine that sends unconditionally: with three pools one of them blocks forever on the full channel -/
+theorem C05_engine_goroutines_exit_counterexample : ¬ C05_engine_goroutines_exit_statement ⟨false⟩ := by
+  intro h
+  have := h 3 leakWitness 2 .ok (by decide) (by decide)
+  revert this
+  decide
+
+-- … and there neither the send nor the context case can fire: the goroutine is stuck
+example : estep ⟨false⟩ (erun ⟨false⟩ 3 leakWitness) (.send 2) = erun ⟨false⟩ 3 leakWitness ∧
+    estep ⟨false⟩ (erun ⟨false⟩ 3 leakWitness) (.suppress 2) = erun ⟨false⟩ 3 leakWitness := by decide
+-- the code: the same execution, the third goroutine leaves
+example : (estep EngCfg.code (erun EngCfg.code 3 leakWitness) (.suppress 2)).pools[2]? = some (PoolG.suppressed .ok) := by decide
+-- two clean pools
+example : (erun EngCfg.code 2 [.poolRet 1 .ok, .send 1, .recv, .poolRet 0 .ok, .send 0, .recv]).result = some ERes.ok := by decide
+-- the caller cancels while a failure is in the channel: the cancellation error
+example : (erun EngCfg.code 2 [.poolRet 1 (.fail .provider (.err 1)), .send 1, .extCancel, .recv]).result = some ERes.ctx := by decide
+
+/-- the source as it is now selects (regenerated paths of `Engine.Run`) -/
+theorem C05_source_engine_goroutines_exit : C05_engine_goroutines_exit_statement Bridge.C05Engine.srcEngCfg :=
+  C05_engine_goroutines_exit _ (by decide)
+
+end Sys
+
+/-! ### the process: `cli.awaitPandoraTermination` (`Model.C05.Cli`), for every sequence of signals, results, timeouts -/
+
+section Cli
+open Pandora.Model.C05.Cli
+
+/-- the process ends with status 0 exactly when the first thing it meets is a nil result of `Engine.Run`: never after
+a failure of the run, never after a signal it has acted on -/
+theorem C05_cli_exit_zero_iff (evs : List Cli.Ev) : Act.exit 0 ∈ run evs ↔ ∃ rest, evs = .err true :: rest :=
+  Proofs.C05.Cli.exit_zero_iff evs
+
+/-- every other exit comes after the run context was cancelled (`gracefulShutdown`) and after `Engine.Wait` has
+returned — all started instances, providers, aggregators have stopped — unless a timeout fired (30 s / 3 s), a second
+signal arrived, or the signal was neither SIGINT nor SIGTERM -/
+theorem C05_cli_exit_after_shutdown_and_wait (evs : List Cli.Ev) (h : Act.exit 1 ∈ run evs) :
+    (Act.shutdown ∈ run evs ∨ evs.head? = some (Cli.Ev.sig .other)) ∧
+    (Act.waited ∈ run evs ∨ Cli.Ev.timeout ∈ evs ∨ 2 ≤ evs.countP isSig ∨ Cli.Ev.sig .other ∈ evs) :=
+  ⟨Proofs.C05.Cli.exit_after_shutdown evs h, Proofs.C05.Cli.exit_waits evs h⟩
+
+/-- the model is the reading of the regenerated paths of both cases of the outer select of `awaitPandoraTermination` -/
+theorem C05_cli_model_is_source :
+    (Gen.C05Engine.cliEngineReturned.filter (fun p => p.head? != some (.swc "‹rx:arg2@2›=<none>"))).all
+      (fun p => run (Bridge.C05Engine.cliEvs p) == Bridge.C05Engine.cliActs p) = true ∧
+    Gen.C05Engine.cliSignalled.all
+      (fun p => (run (Bridge.C05Engine.cliEvs p)).filter (· != .rcv) == Bridge.C05Engine.cliActs p) = true :=
+  ⟨Bridge.C05Engine.cli_returned_model, Bridge.C05Engine.cli_signalled_model⟩
+
+-- a failed run: shutdown, wait, exit 1 after the tasks have stopped
+example : run [.err false, .waitDone] = [.shutdown, .wait, .waited, .exit 1] := by decide
+-- SIGINT while the run is in progress: acknowledged, the run is cancelled, its result and the tasks are awaited
+example : run [.sig .int, .err false, .waitDone] = [.rcv, .shutdown, .wait, .waited, .exit 1] := by decide
+-- the hypotheses of `C05_cli_exit_after_shutdown_and_wait` are met, with `waited`
+example : Act.exit 1 ∈ run [.sig .term, .err false, .waitDone] ∧ Act.waited ∈ run [.sig .term, .err false, .waitDone] := by decide
+-- a component that ignores the cancel past the timeout: the only way out without `waited`
+example : run [.sig .term, .err false, .timeout] = [.rcv, .shutdown, .wait, .exit 1] := by decide
+
+end Cli
 
 /-! ### non-vacuity: concrete executions that meet the hypotheses -/
 
